@@ -146,11 +146,27 @@ type accObj struct {
 
 func init() {
 	register("synchronized", &component{
-		classes: []string{"any"},
+		classes: []string{"any", "cb-panics"},
 		build:   func(w *world, class string) { w.obj = &syncObj{s: adt.NewSynchronized(7)} },
 		methods: map[string]method{
-			"Synchronized.With":   func(w *world, c *call) { o := so(w); o.s.With(func(v int) { o.cb += v }) },
-			"Synchronized.Using":  func(w *world, c *call) { o := so(w); o.s.Using(func() { o.cb++ }) },
+			"Synchronized.With": func(w *world, c *call) {
+				o := so(w)
+				o.s.With(func(v int) {
+					o.cb += v
+					if w.class == "cb-panics" {
+						panic("callback panics")
+					}
+				})
+			},
+			"Synchronized.Using": func(w *world, c *call) {
+				o := so(w)
+				o.s.Using(func() {
+					o.cb++
+					if w.class == "cb-panics" {
+						panic("callback panics")
+					}
+				})
+			},
 			"Synchronized.Set":    func(w *world, c *call) { so(w).s.Set(c.i) },
 			"Synchronized.Store":  func(w *world, c *call) { so(w).s.Store(c.i) },
 			"Synchronized.Get":    func(w *world, c *call) { _ = so(w).s.Get() },
@@ -320,8 +336,20 @@ func init() {
 	mk := func(rw bool) func(w *world, class string) {
 		return func(w *world, class string) {
 			o := &accObj{}
-			g := fun.Future[int](func() int { return o.body })
-			s := fun.Handler[int](func(v int) { o.body = v })
+			fails := class == "panic"
+			g := fun.Future[int](func() int {
+				v := o.body
+				if fails {
+					panic("getter panics")
+				}
+				return v
+			})
+			s := fun.Handler[int](func(v int) {
+				o.body = v
+				if fails {
+					panic("setter panics")
+				}
+			})
 			if rw {
 				o.get, o.set = adt.AccessorsWithReadLock(g, s)
 			} else {
@@ -330,11 +358,11 @@ func init() {
 			w.obj = o
 		}
 	}
-	register("accessors", &component{classes: []string{"any"}, build: mk(false), methods: map[string]method{
+	register("accessors", &component{classes: []string{"any", "panic"}, build: mk(false), methods: map[string]method{
 		"AccessorsWithLock.get": func(w *world, c *call) { _ = ac(w).get() },
 		"AccessorsWithLock.set": func(w *world, c *call) { ac(w).set(c.i) },
 	}})
-	register("accessors.rw", &component{classes: []string{"any"}, build: mk(true), methods: map[string]method{
+	register("accessors.rw", &component{classes: []string{"any", "panic"}, build: mk(true), methods: map[string]method{
 		"AccessorsWithReadLock.get": func(w *world, c *call) { _ = ac(w).get() },
 		"AccessorsWithReadLock.set": func(w *world, c *call) { ac(w).set(c.i) },
 	}})
